@@ -21,6 +21,9 @@ PROP = "C20"
 LAUNCH = os.path.join(BUILD, "harness", "tool_launch")
 PRE = "ld.so.preload"
 ERRNOS = ["ENOSPC", "EIO", "EDQUOT"]
+# further errno classes per call: interrupted / would-block writes (stdio gives up, it does not retry), every way a rename can be refused
+MORE_ERRNOS = {"write": ["EINTR", "EAGAIN"], "fsync": ["EINTR"], "rename": ["EXDEV", "EACCES", "EPERM", "EBUSY", "EROFS"],
+               "fchown": ["EPERM"], "fchmod": ["EPERM"]}
 WRITE_TYPE = ["openat", "open", "creat", "write", "pwrite64", "writev", "fsync", "fdatasync", "close", "rename", "renameat", "renameat2",
               "fchmod", "fchown", "ftruncate", "truncate", "unlink", "unlinkat", "link", "linkat"]
 LINE = re.compile(r"^(?:\d+\s+)?([a-z_0-9]+)\((.*)\)\s*=\s*(-?\d+|\?)(?:\s.*)?$")
@@ -291,7 +294,7 @@ def one_case(run, exe, trace_model, idx, action, content, new, extra=None):
             continue
         if nm in WRITE_TYPE:
             for k in range(1, n + 1):
-                for e in ERRNOS + (["EPERM"] if nm in ("fchown", "fchmod") else []):
+                for e in ERRNOS + MORE_ERRNOS.get(nm, []):
                     plan.append(("error", nm, k, e))
     for (kind, nm, k, e) in plan:
         setup(d, content, extra)
